@@ -10,23 +10,27 @@ import (
 )
 
 var (
-	kindPool    = []string{"user", "org", "device"}
-	clauseKinds = []string{"", "", "user", "org", "device", "other", "User"}
+	kindPool    = []string{"user", "org", "device", "user", "org", "device", "User", "org.2", "a-b"}
+	clauseKinds = []string{"", "", "user", "org", "device", "other", "User", "user", "org", "multi", "kind", "org.2", "a-b"}
 	keyPool     = []string{"a", "b", "c", "u1", "u2", "k/1", "ключ", "key.with.dots", strings.Repeat("L", 150),
-		"ctl\x01\x1b\x7f", "q\"uo\\te\n\t", "tag\U000E0001\u2028", "nul\x00mid", "100%-off %d %s %v%!"}
+		"ctl\x01\x1b\x7f", "q\"uo\\te\n\t", "tag\U000E0001\u2028", "nul\x00mid", "100%-off %d %s %v%!", "caf\u00e9", "Key-A"}
 	attrNames   = []string{"a", "b", "email", "n", "s", "arr", "obj", "/a~b", "a/b", "d", "v"}
-	segKeyPool  = []string{"s0", "s1", "beta-10%-of-users%s", "s3", "s4", "s5", "s2"}
-	flagKeyPool = []string{"f0", "checkout-50%-discount%d", "f2", "f3", "f4", "f5", "f6", "f1"}
+	segKeyPool  = []string{"s0", "s1", "beta-10%-of-users%s", "s3", "s4", "s5", "s2", "", "S0"}
+	flagKeyPool = []string{"f0", "checkout-50%-discount%d", "f2", "f3", "f4", "f5", "f6", "f1", "", "F1"}
 	saltPool    = []string{"", "salt", "s2", strings.Repeat("S", 120), "sa.lt", "соль", "s\x00t", "%d.%s"}
 	dateStrs    = []string{"2020-01-01T00:00:00Z", "2020-01-01T00:00:00.5Z", "2019-12-31T23:00:00-01:00", "1970-01-01T00:00:00Z", "0001-01-01T00:00:00Z", "9999-12-31T23:59:59.999999999Z", "2020-02-31T00:00:00Z", "2020-01-01t00:00:00z", "2020-01-01T0:00:00Z", "2020-01-01", "not a date", "2020-01-01T00:00:00+99:59",
 		"2020-00-10T00:00:00Z", "2020-13-10T00:00:00Z", "2020-01-00T00:00:00Z", "2020-01-32T00:00:00Z", "2020-01-01T24:00:00Z",
 		"2020-01-01T23:60:00Z", "2020-01-01T23:59:60Z", "2020-01-01T23:59:61Z", "2020-01-01T00:00:00+01:60", "2020-01-01T00:00:00-24:00", "2020-01-01T00:00:00.Z",
-		" 2020-01-01T00:00:00Z", "2020-01-01T00:00:00+00:00\n", "\t2019-12-31T23:00:00-01:00 ", "2020-01-01T00:00:00Z "}
+		" 2020-01-01T00:00:00Z", "2020-01-01T00:00:00+00:00\n", "\t2019-12-31T23:00:00-01:00 ", "2020-01-01T00:00:00Z ",
+		// instants that leave the years 0000-9999 once the offset is applied
+		"0000-01-01T00:00:00+00:01", "0000-01-01T00:00:00+23:59", "9999-12-31T23:59:59-00:01", "9999-12-31T23:59:60-23:59",
+		"0000-01-01T00:00:00+99:59", "9999-12-31T23:59:59.999999999-99:59", "0000-01-01T00:00:00Z", "0000-12-31T23:59:60Z"}
 	dateNums  = []float64{0, 1577836800000, 1577836800500, 1577833200000, -62135596800000, 253402300799000, 253402300799999, 1.5, -1, 9.3e18}
 	verStrs   = []string{"1.0.0", "1.0", "1", "2.0.0", "1.0.0-rc.1", "1.0.0-rc.2", "1.0.0-rc.10", "1.0.0-alpha", "1.0.0+build", "1.2.3-a.b+c.d", "01.0.0", "1.0.0-", "1..0", "v1.0.0", "1.0.0-rc..1", "10.0.0", "1.10.0", "1.2.3.4", " 1.0.0", "1.0.0 ", "1.0.0\n", "+1.0.0"}
-	regexStrs = []string{"^a", "b$", "a.*c", ".", "", "(", "[a-", "^(a|b)+$", "\\d+", "ключ", "k/1", "^ab$", "\\Aab\\z", "^a\\.b$", "^[a]$", "ab", "(?i)AB", "a|b"}
+	regexStrs = []string{"^a", "b$", "a.*c", ".", "", "(", "[a-", "^(a|b)+$", "\\d+", "ключ", "k/1", "^ab$", "\\Aab\\z", "^a\\.b$", "^[a]$", "ab", "(?i)AB", "a|b",
+		"a{2}", "a{1,}b", "\\p{L}+", "\\Qa.b\\E", "[[:alpha:]]+", "(?s)a.b", "(?m)^b$", "x{1001}", "a{2", "\\Qa.b"}
 	plainStrs = []string{"", "a", "b", "abc", "ab", "bc", "1", "1.0", "true", "user", "org", "multi", "kind", "ключ", "x y", "xaby", "a.b", "axb",
-		"ctl\x01\x1b\x7f", "q\"uo\\te\n", "tag\U000E0001"}
+		"ctl\x01\x1b\x7f", "q\"uo\\te\n", "tag\U000E0001", "ab\n", "a\nb", "aab", "a{2}"}
 	numPool      = []float64{0, 1, -1, 2, 2.5, 0.1, 1e10, 9007199254740992, -9007199254740992, 9223372036854775808, -9223372036854775808, 99, 100, 1e-7, 3}
 	operatorPool = []string{"in", "endsWith", "startsWith", "matches", "contains", "lessThan", "lessThanOrEqual", "greaterThan", "greaterThanOrEqual", "before", "after", "semVerEqual", "semVerLessThan", "semVerGreaterThan"}
 	statusPool   = []string{"HEALTHY", "STALE", "STORE_ERROR", "NOT_CONFIGURED"}
@@ -152,7 +156,7 @@ func (g *gen) sctx(kind string) WSCtx {
 		c.Attrs = append(c.Attrs, WAttr{k, v})
 	}
 	if kind == "user" && r.chance(1, 4) {
-		c.Sec = sp(pick(r, []string{"sec", "", "x.y"}))
+		c.Sec = sp(pick(r, []string{"sec", "", "x.y", "sec", strings.Repeat("x", 97), strings.Repeat("y", 200)}))
 	}
 	// old-schema user JSON is the only way to obtain a valid context whose key is the empty string
 	if kind == "user" && r.chance(1, 12) {
@@ -167,11 +171,14 @@ func (g *gen) sctx(kind string) WSCtx {
 func (g *gen) context() WCtx {
 	r := g.r
 	if r.chance(g.p.PInvalidCtx, 100) {
-		return WCtx{T: "invalid", Inv: pick(r, []string{"uninit", "emptykey", "badkind", "multidup", "multiempty"})}
+		return WCtx{T: "invalid", Inv: pick(r, []string{"uninit", "emptykey", "badkind", "multidup", "multiempty", "kindmulti", "badchars", "multibadmember"})}
 	}
 	if r.chance(g.p.PMulti, 100) {
 		n := 2 + r.intn(2)
 		perm := []string{"user", "org", "device"}
+		if r.chance(1, 5) {
+			perm = []string{"user", "User", "org.2", "a-b", "org"}
+		}
 		// random subset of size n
 		for i := range perm {
 			j := i + r.intn(len(perm)-i)
@@ -424,10 +431,39 @@ func (g *gen) strList(pool []string, max int) []string {
 	return out
 }
 
+// neighbours: strings that equal k up to letter case, surrounding blanks, Unicode normal form, or
+// their last byte (membership in a key list is exact string equality).
+func neighbours(k string) []string {
+	out := []string{k + " ", " " + k, k + k, strings.ToUpper(k), strings.ToLower(k), strings.Title(k)}
+	if len(k) > 0 {
+		out = append(out, k[:len(k)-1], k[:len(k)-1]+"~", k+"\x00")
+	}
+	out = append(out, strings.ReplaceAll(k, "\u00e9", "e\u0301"), strings.ReplaceAll(k, "e\u0301", "\u00e9"), k+"\u0301")
+	res := []string{}
+	for _, x := range out {
+		if x != k {
+			res = append(res, x)
+		}
+	}
+	return res
+}
+
 func (g *gen) keysBiased(max int) []string {
 	pool := keyPool
 	if len(g.ctxKeys) > 0 && g.r.chance(2, 3) {
 		pool = append(append([]string{}, g.ctxKeys...), "zz", "a")
+		if g.r.chance(1, 3) {
+			// near misses of the context's own keys, mostly WITHOUT the key itself
+			near := []string{}
+			for _, k := range g.ctxKeys {
+				near = append(near, neighbours(k)...)
+			}
+			if g.r.bool() {
+				pool = near
+			} else {
+				pool = append(pool, near...)
+			}
+		}
 	}
 	out := g.strList(pool, max)
 	if g.r.chance(1, 6) {
@@ -447,6 +483,9 @@ func (g *gen) form() string {
 	}
 	if g.r.chance(1, 4) {
 		return "repre"
+	}
+	if g.r.chance(1, 4) {
+		return "partial"
 	}
 	return "pre"
 }
@@ -523,7 +562,7 @@ func (g *gen) flag(key string, prereqKeys, segKeys []string) WFlag {
 	f.FT = g.vr(nVars)
 	f.TrackFT = r.chance(1, 4)
 	f.Excl = r.chance(1, 4)
-	f.Meta = WFlagMeta{Version: r.intn(100), Track: r.bool(), Debug: "0"}
+	f.Meta = WFlagMeta{Version: pick(r, []int{r.intn(100), r.intn(100), r.intn(100), -1, 1 << 31, 9007199254740993, math.MaxInt64}), Track: r.bool(), Debug: "0"}
 	if r.chance(1, 4) {
 		f.Meta.Debug = fmt.Sprint(1500000000000 + r.intn(1000))
 	}
@@ -555,13 +594,13 @@ func (g *gen) segTargets() []WSegTarget {
 
 func (g *gen) segment(key string, segKeys []string) WSegment {
 	r := g.r
-	s := WSegment{Key: key, Salt: pick(r, saltPool), Form: g.form(), Version: r.intn(50), Rules: []WSegRule{},
+	s := WSegment{Key: key, Salt: pick(r, saltPool), Form: g.form(), Version: pick(r, []int{r.intn(50), r.intn(50), r.intn(50), -1, 1 << 31, math.MaxInt64}), Rules: []WSegRule{},
 		Inc: g.keysBiased(2), Exc: g.keysBiased(2), IncC: g.segTargets(), ExcC: g.segTargets()}
 	if r.chance(g.p.PBigSeg, 100) {
 		s.Unb = true
 		s.UnbK = pick(r, clauseKinds)
 		if !r.chance(1, 8) {
-			s.Gen = ip(pick(r, []int{1, 2, 0, -1, 7}))
+			s.Gen = ip(pick(r, []int{1, 2, 0, -1, 7, 1, 2, 1 << 31, 1 << 40, 9007199254740993, math.MaxInt64, math.MinInt64}))
 		}
 	} else if r.chance(1, 10) {
 		s.Gen = ip(1)
